@@ -30,22 +30,22 @@ func runC17(c *fw.Ctx) {
 
 // frozen classification of assertions the automatic classes do not cover: key -> (class, reason)
 var assertTable = map[string][2]string{
-	"(*CodeBuilder).methodSigOf/arg.Type.(*TypeType)":           {"B", "only reached with flag == memberFlagMethodToFunc, which Member sets exactly when the operand's type is a *TypeType"},
-	"(*CodeBuilder).methodSigOf/ret.Val.(*ast.SelectorExpr)":    {"B", "ret was built by CodeBuilder.method with selector(...)"},
-	"methodToFuncSig/fn.Val.(*ast.SelectorExpr)":                {"B", "the callee element of an overloaded method was built by CodeBuilder.method with selector(...)"},
-	"matchFuncCall/mfn.Val.(*target.SelectorExpr)":              {"B", "the callee element of an overloaded method was built by CodeBuilder.method with selector(...)"},
+	"(*CodeBuilder).methodSigOf/arg.Type.(*TypeType)":                                {"B", "only reached with flag == memberFlagMethodToFunc, which Member sets exactly when the operand's type is a *TypeType"},
+	"(*CodeBuilder).methodSigOf/ret.Val.(*ast.SelectorExpr)":                         {"B", "ret was built by CodeBuilder.method with selector(...)"},
+	"methodToFuncSig/fn.Val.(*ast.SelectorExpr)":                                     {"B", "the callee element of an overloaded method was built by CodeBuilder.method with selector(...)"},
+	"matchFuncCall/mfn.Val.(*target.SelectorExpr)":                                   {"B", "the callee element of an overloaded method was built by CodeBuilder.method with selector(...)"},
 	"newUnsafeAddExpr/toObjectExpr(pkg, unsafeRef(\"Sizeof\")).(*ast.SelectorExpr)":  {"B", "toObjectExpr yields a SelectorExpr for an object of another package (unsafe)"},
 	"newUnsafeDataExpr/toObjectExpr(pkg, unsafeRef(\"Sizeof\")).(*ast.SelectorExpr)": {"B", "toObjectExpr yields a SelectorExpr for an object of another package (unsafe)"},
 	"(*CodeBuilder).emitVar/p.current.scope.Lookup(name).(*types.Var)":               {"B", "the variable was declared by NewVar/NewVarStart two statements earlier"},
-	"(*CodeBuilder).IncDec/fn.Type().(*TyInstruction)":                                {"B", "the builtin scope entry XGo_Inc/XGo_Dec is inserted by initBuiltinOps as an instruction (R2.1)"},
-	"(*Package).lookupTypeUnitsVal/ounits.(*types.Const)":                             {"I", "XGou_<Type> of an imported extension package: import data, not a program under construction (a malformed extension package is outside the property's inputs)"},
-	"DefaultConv/typ.(*types.Named)":                                                  {"I", "<Type>_Default alias of an imported extension package: import data"},
-	"offsetof/typ.(*types.Struct)":                                                    {"A", "index path computed by types.LookupFieldOrMethod: every prefix of the path selects a struct"},
-	"(*CodeBuilder).instantiate/typ.(*types.Signature)": {"B", "reached only when the indexed operand is a value (not a TypeType) whose type passed isGenericType: generic named/alias types occur only as TypeType operands, so a generic value's type is a signature"},
-	"boundTypeParams/ret.(*types.Signature)":             {"A", "result of types.Instantiate / inferFunc on a signature, error tested first"},
-	"checkInferArgs/typ.(*types.Slice)":                  {"A", "type of the last parameter of a variadic signature (inside `if sig.Variadic()`)"},
-	"init/universe.Lookup(\"byte\").Type().(*types.Basic)":                            {"A", "universe type"},
-	"init/universe.Lookup(\"rune\").Type().(*types.Basic)":                            {"A", "universe type"},
+	"(*CodeBuilder).IncDec/fn.Type().(*TyInstruction)":                               {"B", "the builtin scope entry XGo_Inc/XGo_Dec is inserted by initBuiltinOps as an instruction (R2.1)"},
+	"(*Package).lookupTypeUnitsVal/ounits.(*types.Const)":                            {"I", "XGou_<Type> of an imported extension package: import data, not a program under construction (a malformed extension package is outside the property's inputs)"},
+	"DefaultConv/typ.(*types.Named)":                                                 {"I", "<Type>_Default alias of an imported extension package: import data"},
+	"offsetof/typ.(*types.Struct)":                                                   {"A", "index path computed by types.LookupFieldOrMethod: every prefix of the path selects a struct"},
+	"(*CodeBuilder).instantiate/typ.(*types.Signature)":                              {"B", "reached only when the indexed operand is a value (not a TypeType) whose type passed isGenericType: generic named/alias types occur only as TypeType operands, so a generic value's type is a signature"},
+	"boundTypeParams/ret.(*types.Signature)":                                         {"A", "result of types.Instantiate / inferFunc on a signature, error tested first"},
+	"checkInferArgs/typ.(*types.Slice)":                                              {"A", "type of the last parameter of a variadic signature (inside `if sig.Variadic()`)"},
+	"init/universe.Lookup(\"byte\").Type().(*types.Basic)":                           {"A", "universe type"},
+	"init/universe.Lookup(\"rune\").Type().(*types.Basic)":                           {"A", "universe type"},
 }
 
 func r171(c *fw.Ctx) {
